@@ -3,7 +3,6 @@
   Quantification: every seed list (any count, literal of any length, all u8 parameters),
   every 32-byte array, every key-data config and every byte prefix.
 -/
-import SplModel.Generated.SeedConsts
 import SplProofs.Lemmas.Seeds
 
 namespace C11
@@ -204,18 +203,5 @@ theorem C11_keydata_unpack (b : Bytes) :
 example : packIntoAddressConfig [.literal [7, 7], .instr 1 2, .acctKey 3, .acctData 4 5 6] =
     .ok ([1, 2, 7, 7, 2, 1, 2, 3, 3, 4, 4, 5, 6] ++ zeros 19) := by decide
 example : (packIntoAddressConfig [.literal (zeros 31)]).isErr = true := by decide
-
-/-- The packed sizes the model uses are the arms of `Seed::tlv_size` / `PubkeyData::tlv_size` as
-    regenerated from the current source (constant expressions evaluated by the translator). -/
-theorem C11_source_sizes (b : Bytes) (i l a d : UInt8) :
-    tlvSize .uninit = Gen.Seeds.SEED_SIZE_UNINITIALIZED ∧
-    tlvSize (.literal b) = min (min b.length 255 + Gen.Seeds.SEED_LITERAL_OVERHEAD) 255 ∧
-    tlvSize (.instr i l) = Gen.Seeds.SEED_SIZE_INSTRUCTION_DATA ∧
-    tlvSize (.acctKey i) = Gen.Seeds.SEED_SIZE_ACCOUNT_KEY ∧
-    tlvSize (.acctData a d l) = Gen.Seeds.SEED_SIZE_ACCOUNT_DATA ∧
-    kdSize .uninit = Gen.Seeds.KD_SIZE_UNINITIALIZED ∧
-    kdSize (.instr i) = Gen.Seeds.KD_SIZE_INSTRUCTION_DATA ∧
-    kdSize (.acctData a d) = Gen.Seeds.KD_SIZE_ACCOUNT_DATA := by
-  refine ⟨rfl, rfl, rfl, rfl, rfl, rfl, rfl, rfl⟩
 
 end C11
